@@ -265,7 +265,13 @@ canary('momentum lookback not bumped', MomentumSignal, '__init__', 'lookback + 1
          functions=['WeeklyRebalance._set_weekday', 'WeeklyRebalance._set_market_time', 'DailyRebalance._set_market_time', 'EndOfMonthRebalance._set_market_time'])
 def rebalance_small(c):
     """weekday accepted iff (case-insensitively) one of MON..FRI, else ValueError; stamp 14:30:00 iff pre-market else 21:00:00"""
-    w = object.__new__(WeeklyRebalance)
+    if c.mode == 'conc':
+        import pandas as pd
+        a, b = pd.Timestamp('2020-01-06 00:00', tz='UTC'), pd.Timestamp('2020-02-07 23:59', tz='UTC')
+        real = {WeeklyRebalance: WeeklyRebalance(a, b, 'WED'), DailyRebalance: DailyRebalance(a, b), EndOfMonthRebalance: EndOfMonthRebalance(a, b)}
+    else:
+        real = {}         # (the constructors build their schedules with pandas: bounded part; the helpers below do not read self)
+    w = real.get(WeeklyRebalance) or object.__new__(WeeklyRebalance)
     for s in ['MON', 'tue', 'Wed', 'THU', 'fri', 'SAT', 'sun', 'MONDAY', '', 'XYZ']:
         try:
             r = w._set_weekday(s)
@@ -273,7 +279,7 @@ def rebalance_small(c):
             r = None
         c.ob('weekday-%r' % s, (r == s.upper()) if s.upper() in ('MON', 'TUE', 'WED', 'THU', 'FRI') else (r is None))
     for cls in (WeeklyRebalance, DailyRebalance, EndOfMonthRebalance):
-        o = object.__new__(cls)
+        o = real.get(cls) or object.__new__(cls)
         c.ob('%s-stamp-follows-pre-market-flag' % cls.__name__, (o._set_market_time(True), o._set_market_time(False)) == ('14:30:00', '21:00:00'))
 
 
@@ -356,7 +362,9 @@ def _signal_update_assets_conc(c):
     uni = UniverseStub(c)
     dt = c.time('dt')
     old = [k for k in dict.fromkeys([w1, w2, w3]) if c.ceval(z3.Select(z3.Const('tracked0', heap.AKB), c.keyterm(k)), lambda r: r.random() < 0.4, bool)]
-    s = object.__new__(MomentumSignal)
+    import pandas as pd
+    s = MomentumSignal(pd.Timestamp('2020-01-01', tz='UTC'), uni, [2])
+    del uni.queries[:]
     s.universe, s.assets = uni, list(old)
     s.update_assets(dt)
     want = set(old) | set(uni._conc(dt))
